@@ -637,7 +637,11 @@ class ConfusionMatrixAggFn(base.AggregateFn):
       self, state: ConfusionMatrixAggState | None, *inputs: Any
   ) -> ConfusionMatrixAggState:
     cm = self._calculate_confusion_matrix(*inputs)
-    return (cm + state) if state else cm
+    if state:
+      # In-place on the fresh matrix: keeps its type (e.g. top-k with `k`) and
+      # leaves the input state untouched.
+      cm += state
+    return cm
 
   def merge_states(
       self, states: list[ConfusionMatrixAggState]
@@ -647,8 +651,9 @@ class ConfusionMatrixAggFn(base.AggregateFn):
         and self.vocab is None
     ):
       raise ValueError(f'Global vocab is needed for "{self._average}" average.')
-    iter_acc = iter(states)
-    result = next(iter_acc)
+    # Skips the empty states, e.g., create_state() of a shard without inputs.
+    iter_acc = (state for state in states if state is not None)
+    result = next(iter_acc, None)
     for accumulator in iter_acc:
       result += accumulator
     return result
